@@ -78,6 +78,18 @@ Theorem violation_detaches : forall r s code oracle,
 Proof. exact RealmC05.violation_detaches. Qed.
 Print Assumptions violation_detaches.
 
+Theorem publish_ppt_violation_detaches : forall r s req opts topic args kw oracle,
+    publish_aborts (r_cfg r) s opts topic = true ->
+    ~ client (fst (handle r s (CPublish req opts topic args kw) oracle)) (s_id s).
+Proof. exact RealmC05.publish_ppt_violation_detaches. Qed.
+Print Assumptions publish_ppt_violation_detaches.
+
+Theorem yield_ppt_violation_detaches : forall r s req opts args kw oracle,
+    yield_aborts (lookup r) (r_dealer r) (s_id s) req opts = true ->
+    ~ client (fst (handle r s (CYield req opts args kw) oracle)) (s_id s).
+Proof. exact RealmC05.yield_ppt_violation_detaches. Qed.
+Print Assumptions yield_ppt_violation_detaches.
+
 Theorem kill_detaches : forall sids r g x,
     In x sids -> ~ client (fst (kill_sessions r sids g)) x.
 Proof. exact RealmC05.kill_detaches. Qed.
@@ -135,7 +147,7 @@ Theorem own_calls_abandoned : forall r sid k0 callee q inv opts args kw,
     cget (d_calls (r_dealer r')) (inv_call inv) = None /\
     cget (d_bycall (r_dealer r')) (inv_call inv) = None /\
     (cget (d_invs (r_dealer r')) (callee, q) = None ->
-     sync_yield (r_dealer r') callee q opts args kw =
+     forall lk, sync_yield lk (r_dealer r') callee q opts args kw =
      (r_dealer r', if opt_bool opts "progress" then [(callee, RInterrupt q [("mode", vstr "killnowait")])] else [])).
 Proof. exact RealmC05.own_calls_abandoned. Qed.
 Print Assumptions own_calls_abandoned.
